@@ -837,7 +837,7 @@ impl Check for C12 {
     fn cases(&self, tier: Tier) -> u64 {
         match tier {
             Tier::Quick => 40_000,
-            Tier::Thorough => 2_500_000,
+            Tier::Thorough => 1_500_000,
         }
     }
     fn run_case(&self, ctx: &mut CaseCtx) {
